@@ -34,21 +34,21 @@ theorem W_pos : 0 < W := by decide
 /-- the `while length <= len(buf)` loop; returns the residual state and the payloads
     handed to the message handler, in order -/
 def loop (s : St) : St × List Bytes :=
-  match h : s.len with
+  match _h : s.len with
   | none =>
-    if hle : W ≤ s.buf.length then
+    if _hle : W ≤ s.buf.length then
       loop ⟨s.buf.drop W, some (beNat (s.buf.take W))⟩
     else (s, [])
   | some n =>
-    if hle : n ≤ s.buf.length then
+    if _hle : n ≤ s.buf.length then
       let r := loop ⟨s.buf.drop n, none⟩
       (r.1, s.buf.take n :: r.2)
     else (s, [])
 termination_by 2 * s.buf.length + (if s.len.isSome then 1 else 0)
 decreasing_by
   · have := W_pos
-    simp [h, List.length_drop]; omega
-  · simp [h, List.length_drop]; omega
+    simp [_h, List.length_drop]; omega
+  · simp [_h, List.length_drop]; omega
 
 /-- `dataReceived(data)` -/
 def feed (s : St) (data : Bytes) : St × List Bytes := loop ⟨s.buf ++ data, s.len⟩
